@@ -766,7 +766,7 @@ func c07Cfgs() []c07Cfg {
 
 func TestVerif_C07(t *testing.T) {
 	vx.Run(t, "C07", func(c *vx.Ctx) {
-		c.Rule("part train: a case is (reader configuration, k context frames, one last frame). configurations: (max read size, mode) in {(16384,plain),(20,plain),(16384,ReadMetaHeaders default list size),(20,meta,40),(16384,meta,100)}. context alphabet: 16 frames that drive the reader through its states (field block left open / closed by HEADERS, PUSH_PROMISE, CONTINUATION on streams 1 and 3, stream-error frames, max-size and tiny payloads, SETTINGS, PING, unknown type). last frame: type in {0..10, 0x10, unknown 0x0b/0x11/0xff} x flags {0, each single bit, 0x0c,0x24,0x28,0x2c, 0xff} x stream field {0,1,3, reserved-bit+0, reserved-bit+1} x length {min-1,min,min+1,min+2,max,max+1} (min = smallest legal payload for type/flags, max = max read size) x fill byte {00,01,82,ff} (+ SETTINGS window-size boundaries). context prefixes in which the reference itself finds a violation are skipped (that frame is judged as the last frame of the shorter train). quick: k<=1 with the full last set, k=2 with a reduced last set; thorough: k<=2 full, k=3 reduced. part trunc: k<=1, reduced last set, last frame cut at every byte offset (for payloads > 48 bytes: the first 57 and last 2 offsets). part hpack: HEADERS(+CONTINUATION) trains carrying each of a fixed set of header blocks (valid request/response, duplicate/unknown/misplaced pseudo fields, invalid names and values, oversized lists, static/dynamic indexing, size updates, malformed HPACK) in 3 encodings, split at every byte offset (thorough: every pair of offsets), x MaxHeaderListSize {default,40,42,100} x max read size x HEADERS padding/priority variants x an interleaved foreign frame x a preceding block that seeds the dynamic table. part bytes: every byte value 0..255 in a field name (alone, in the middle), in a value, in a pseudo value and after ':' . non-trivial = the reader reached the last frame of the train")
+		c.Rule("part train: a case is (reader configuration, k context frames, one last frame). configurations: (max read size, mode) in {(16384,plain),(20,plain),(16384,ReadMetaHeaders default list size),(20,meta,40),(16384,meta,100)}. context alphabet: 16 frames that drive the reader through its states (field block left open / closed by HEADERS, PUSH_PROMISE, CONTINUATION on streams 1 and 3, stream-error frames, max-size and tiny payloads, SETTINGS, PING, unknown type). last frame: type in {0..10, 0x10, unknown 0x0b/0x11/0xff} x flags {0, each single bit, 0x0c,0x24,0x28,0x2c, 0xff} x stream field {0,1,3, reserved-bit+0, reserved-bit+1} x length {min-1,min,min+1,min+2,max,max+1} (min = smallest legal payload for type/flags, max = max read size) x fill byte {00,01,82,ff} (+ SETTINGS window-size boundaries). context prefixes in which the reference itself finds a violation are skipped (that frame is judged as the last frame of the shorter train). quick: k=0 with the full last set, k=1,2 with a reduced last set (5 flag bytes, 3 stream fields, one fill); thorough: k<=2 full, k=3 reduced. part trunc: k<=1 (quick: no context, open HEADERS block, open PUSH_PROMISE block), reduced last set, last frame cut at every byte offset (for payloads > 48 bytes: the first 57 and last 2 offsets). part hpack: HEADERS(+CONTINUATION) trains carrying each of a fixed set of header blocks (valid request/response, duplicate/unknown/misplaced pseudo fields, invalid names and values, oversized lists, static/dynamic indexing, size updates, malformed HPACK) in 3 encodings, split at every byte offset (thorough: every pair of offsets), x MaxHeaderListSize {default,40,42,100} x max read size x HEADERS padding/priority variants x an interleaved foreign frame x a preceding block that seeds the dynamic table. part bytes: every byte value 0..255 in a field name (alone, in the middle), in a value, in a pseudo value and after ':' . non-trivial = the reader reached the last frame of the train")
 		c.Assume("byte streams that are not sequences of frame headers + payloads are not generated separately: any byte string parses as such a sequence; coverage of payload contents is limited to the listed fills and blocks")
 		c.Assume("field values are judged per byte (VCHAR / obs-text / SP / HTAB); leading or trailing whitespace in a value (RFC 9113 §8.2.1) is not in the alphabet")
 		c.Assume("request/response pseudo-header mixing is in the input set but not an oracle clause (the property names order, duplicates, unknown names, validity and size only)")
@@ -873,9 +873,10 @@ func TestVerif_C07(t *testing.T) {
 			}
 		})
 		// ---------------------------------------------------------- structured trains
-		fullDepth := vx.Pick(c, 1, 2)
+		fullDepth := vx.Pick(c, 0, 2)
+		maxDepth := vx.Pick(c, 2, 3)
 		vx.Enumerate(c, "train", vx.Opts{}, func(yield func(c07Case) bool) {
-			for depth := 0; depth <= fullDepth+1; depth++ {
+			for depth := 0; depth <= maxDepth; depth++ {
 				for _, cfg := range c07Cfgs() {
 					ctx := c07Ctx(cfg)
 					lasts := c07Lasts(cfg, depth > fullDepth)
@@ -918,7 +919,7 @@ func TestVerif_C07(t *testing.T) {
 				ctx := c07Ctx(cfg)
 				pres := [][]c07Frame{nil}
 				for i, f := range ctx {
-					if c.Quick() && i != 1 && i != 3 && i != 9 && i != 11 {
+					if c.Quick() && i != 3 && i != 9 {
 						continue
 					}
 					pres = append(pres, []c07Frame{f})
